@@ -23,9 +23,9 @@ theorem fnobj_spec_z (cst : Bool) (o : Bin) (p : ZLoc) (a b : ZArg) (h : Heap)
   fnBinZ_spec cst o p a b h ha hb hab
 
 -- non-vacuity: `z = LONG_MIN - z` with z = 5 aliased to the destination, and `LONG_MIN / z` with z = -1
-example : (fnBinZ false .sub (.v 0) (.bi (.si LONG_MIN)) (.loc (.v 0)) (fun _ => 5)).map (· (.v 0)) = some (-9223372036854775813) := by
+example : (fnBinZ false .sub (.v 0) (.bi (.si LONG_MIN)) (.loc (.v 0)) ⟨fun _ => 5⟩).map (· (.v 0)) = some (-9223372036854775813) := by
   decide
-example : (fnBinZ true .div (.v 1) (.bi (.si LONG_MIN)) (.loc (.v 0)) (fun _ => -1)).map (· (.v 1)) = some 9223372036854775808 := by
+example : (fnBinZ true .div (.v 1) (.bi (.si LONG_MIN)) (.loc (.v 0)) ⟨fun _ => -1⟩).map (· (.v 1)) = some 9223372036854775808 := by
   decide
 
 theorem fnBinZ_ll (cst : Bool) (o : Bin) (p w v : ZLoc) (h : Heap) :
@@ -344,11 +344,11 @@ theorem expr_eval_correct_partial (cst : Bool) (K t : Nat) (e : E) (h : Heap)
 -- non-vacuity: `z0 = z1 - z0 * 3` (the target inside the tree) with z0 = 5, z1 = 7 gives -8; and the
 -- strategy really introduces a temporary for `z0 = z0 - (z1 * z0)`.
 example : (evalZ false 4 (.v 0) (.bin .sub (.zv 1) (.binR .mul (.zv 0) (.si 3)))
-    (fun l => match l with | .v 0 => 5 | .v 1 => 7 | _ => 1)).map (· (.v 0)) = some (-8) := by decide
+    ⟨fun l => match l with | .v 0 => 5 | .v 1 => 7 | _ => 1⟩).map (· (.v 0)) = some (-8) := by decide
 example : (evalZ false 4 (.v 0) (.bin .sub (.zv 0) (.bin .mul (.zv 1) (.zv 0)))
-    (fun l => match l with | .v 0 => 5 | .v 1 => 7 | _ => 1)).map (fun h => (h (.v 0), h (.v 4))) = some (-30, 35) := by decide
+    ⟨fun l => match l with | .v 0 => 5 | .v 1 => 7 | _ => 1⟩).map (fun h => (h (.v 0), h (.v 4))) = some (-30, 35) := by decide
 -- an exception of the temporaries semantics is an exception of the strategy: `z0 = z1 / (z0 - z0)`
-example : evalZ true 4 (.v 0) (.bin .div (.zv 1) (.bin .sub (.zv 0) (.zv 0))) (fun _ => 3) = none := by decide
+example : evalZ true 4 (.v 0) (.bin .div (.zv 1) (.bin .sub (.zv 0) (.zv 0))) ⟨fun _ => 3⟩ = none := by decide
 
 
 /-! ### comparisons, `cmp`, `sgn` on mpz-typed operands -/
@@ -427,7 +427,7 @@ theorem cmp_eval_correct_z (cst : Bool) (K : Nat) (o : Cmp) (a b : Opnd) (h : He
         cases biRat c <;> simp
 
 -- non-vacuity: `(z0 + z1) < 2.5` with z0 = 1, z1 = 1 is true (mpz_cmp_d does not truncate the double); `-3 > z0 * z1`
-example : execCmpZ false 4 .lt (.ex (.bin .add (.zv 0) (.zv 1))) (.bi (.d 0x4004000000000000)) (fun _ => 1) = some 1 := by decide
-example : execCmpZ true 4 .gt (.bi (.si (-3))) (.ex (.bin .mul (.zv 0) (.zv 1))) (fun l => if l = .v 0 then -2 else 2) = some 1 := by decide
+example : execCmpZ false 4 .lt (.ex (.bin .add (.zv 0) (.zv 1))) (.bi (.d 0x4004000000000000)) ⟨fun _ => 1⟩ = some 1 := by decide
+example : execCmpZ true 4 .gt (.bi (.si (-3))) (.ex (.bin .mul (.zv 0) (.zv 1))) ⟨fun l => if l = .v 0 then -2 else 2⟩ = some 1 := by decide
 
 end Mpir.Cxx
